@@ -4,6 +4,7 @@ import (
 	"bytes"
 	"fmt"
 	"regexp"
+	"strings"
 	"sync"
 	"text/template"
 
@@ -19,6 +20,9 @@ var pool = sync.Pool{
 // Template helper functions
 
 var invalid *regexp.Regexp = regexp.MustCompile(`\W`)
+
+var vclStringReplacer = strings.NewReplacer("%", "%25", `"`, "%22", "\n", "%0A", "\r", "%0D")
+var onelineReplacer = strings.NewReplacer("\n", " ", "\r", " ")
 
 var helperFuncs = template.FuncMap{
 	"printtype": func(dtype int) string {
@@ -37,6 +41,16 @@ var helperFuncs = template.FuncMap{
 	"sanitize": func(name string) string {
 		return invalid.ReplaceAllString(name, "_")
 	},
+	// vclstring escapes arbitrary text so that it can be embedded in a double-quoted
+	// VCL string literal and reads back unchanged: "%" introduces an escape sequence,
+	// a double quote would terminate the literal.
+	"vclstring": func(s string) string {
+		return vclStringReplacer.Replace(s)
+	},
+	// oneline keeps text inside a line comment
+	"oneline": func(s string) string {
+		return onelineReplacer.Replace(s)
+	},
 	"objectify": func(p Phase) string {
 		switch p {
 		case RequestPhase:
@@ -54,11 +68,12 @@ var helperFuncs = template.FuncMap{
 
 var dictionaryTemplate = template.Must(
 	template.New("dictionary").
+		Funcs(helperFuncs).
 		Parse(
 			`
 table {{ .Name }} STRING {
   {{- range .Items }}
-  "{{ .Key }}": "{{ .Value }}",
+  "{{ .Key | vclstring }}": "{{ .Value | vclstring }}",
   {{- end }}
 }
 `,
@@ -66,11 +81,12 @@ table {{ .Name }} STRING {
 
 var aclTemplate = template.Must(
 	template.New("acl").
+		Funcs(helperFuncs).
 		Parse(
 			`
 acl {{ .Name }} {
 	{{- range .Entries }}
-	{{ if .Negated }}!{{ end }}"{{ .Ip }}"{{ if .Subnet }}/{{ .Subnet }}{{ end }};{{ if .Comment }}  # {{ .Comment }}{{ end }}
+	{{ if .Negated }}!{{ end }}"{{ .Ip }}"{{ if .Subnet }}/{{ .Subnet }}{{ end }};{{ if .Comment }}  # {{ .Comment | oneline }}{{ end }}
 	{{- end }}
 }
 `,
